@@ -116,7 +116,17 @@ func (w *c12World) invariant(step int, what string, rec *Recorder) *Disc {
 		if mw == nil {
 			continue
 		}
-		got := SuiteSig(mw.m.Wrap, mw.suite)
+		// replay the suite in a different order each time: answers must not depend on request history
+		n := len(mw.suite)
+		got := make([]string, n)
+		rot := (step*37 + i*11) % max(n, 1)
+		for k := 0; k < n; k++ {
+			idx := (k + rot) % n
+			if step%2 == 1 {
+				idx = n - 1 - idx
+			}
+			got[idx] = Do(mw.m.Wrap, mw.suite[idx], nil).Sig()
+		}
 		rec.Eval(len(got))
 		if j := firstDiff(mw.baseline, got); j >= 0 {
 			return discf("after step %d (%s): middleware %d (cfg %+v) now answers {%s} with %s; before any adversarial activity it answered %s", step, what, i, mw.cfg, mw.suite[j].Brief(), abbrev(got[j], 400), abbrev(mw.baseline[j], 400))
@@ -335,7 +345,7 @@ func TestC12(t *testing.T) {
 	Prop[C12Case]{ID: "C12", Gen: c12Gen, Check: c12Check,
 		Rule: "generator: history of 3-15 steps over up to 3 live middlewares: create / reconfigure from a Config whose slices have spare capacity; edit the previously passed Config IN PLACE (same backing arrays) and Reconfigure with it, after which the middleware must behave like a fresh one built from the edited configuration; scribble over every slice (and spare capacity) of every Config ever passed in; fetch Config() and scribble over every result ever fetched; " +
 			"evil requests (any kind) through a wrapped handler that overwrites in place, re-slices to capacity and appends to every value slice reachable from r.Header and w.Header(), deletes/sets keys and keeps the slices; scribble over the retained slices later; benign request bursts. " +
-			"Invariant after every step, for every live middleware: answers to its ~150-request suite (fresh requests, benign handler) and Config() equal the baseline recorded right after creation. " +
+			"Invariant after every step, for every live middleware: answers to its ~200-request suite (fresh requests, benign handler, replayed in a different rotation/direction at every step so that history dependence shows) and Config() equal the baseline recorded right after creation. " +
 			"non-trivial = history containing a scribble or an evil non-preflight request followed by a probe; distinct by history.",
 		Assumptions: []string{"slices reachable only from preflight responses are not attacked (the wrapped handler never runs there; installing shared constants on that path is the documented design)",
 			"package-level state corrupted by a defect persists for the rest of the process, so after a first failure shrinking may report the unshrunk history"}}.Run(t)
